@@ -53,7 +53,7 @@ def compare(msteps, csteps):
         # a step the driver skipped for a reason the model does not know (capacity of a fixed vector, unavailable op):
         # the model must skip too, otherwise stop comparing this history
         if s.res.startswith("skip") and not m["res"].startswith("skip"):
-            if s.res in ("skip:na", "skip:cap", "skip:il-size"):
+            if s.res in ("skip:na", "skip:cap", "skip:il-size", "skip:notTR"):
                 break
             return (i, "res", m["res"], s.res), compared
         compared += 1
